@@ -3,26 +3,26 @@ use super::prelude::*;
 use super::generic;
 use crate::{Des, TdesEde2, TdesEde3, TdesEee2, TdesEee3};
 
-//@ harness name=des_debug prop=C19 tier=quick bits=1024 desc="Debug of Des on an arbitrary state: constant text starting with the type identifier"
+//@ harness name=des_debug prop=C19 tier=quick bits=1024 est=10 desc="Debug of Des on an arbitrary state: constant text starting with the type identifier"
 g_debug!(des_debug, Des, "Des", generic::always);
-//@ harness name=tdes_ede3_debug prop=C19 tier=quick bits=3072 desc="Debug of TdesEde3 on an arbitrary state: constant text starting with the type identifier"
+//@ harness name=tdes_ede3_debug prop=C19 tier=quick bits=3072 est=10 desc="Debug of TdesEde3 on an arbitrary state: constant text starting with the type identifier"
 g_debug!(tdes_ede3_debug, TdesEde3, "TdesEde3", generic::always);
-//@ harness name=tdes_ede2_debug prop=C19 tier=quick bits=2048 desc="Debug of TdesEde2 on an arbitrary state: constant text starting with the type identifier"
+//@ harness name=tdes_ede2_debug prop=C19 tier=quick bits=2048 est=15 desc="Debug of TdesEde2 on an arbitrary state: constant text starting with the type identifier"
 g_debug!(tdes_ede2_debug, TdesEde2, "TdesEde2", generic::always);
-//@ harness name=tdes_eee3_debug prop=C19 tier=quick bits=3072 desc="Debug of TdesEee3 on an arbitrary state: constant text starting with the type identifier"
+//@ harness name=tdes_eee3_debug prop=C19 tier=quick bits=3072 est=15 desc="Debug of TdesEee3 on an arbitrary state: constant text starting with the type identifier"
 g_debug!(tdes_eee3_debug, TdesEee3, "TdesEee3", generic::always);
-//@ harness name=tdes_eee2_debug prop=C19 tier=quick bits=2048 desc="Debug of TdesEee2 on an arbitrary state: constant text starting with the type identifier"
+//@ harness name=tdes_eee2_debug prop=C19 tier=quick bits=2048 est=15 desc="Debug of TdesEee2 on an arbitrary state: constant text starting with the type identifier"
 g_debug!(tdes_eee2_debug, TdesEee2, "TdesEee2", generic::always);
 
-//@ harness name=des_algname prop=C19 tier=quick bits=0 desc="AlgorithmName of Des names the algorithm"
+//@ harness name=des_algname prop=C19 tier=quick bits=0 est=15 desc="AlgorithmName of Des names the algorithm"
 g_algname!(des_algname, Des, ["des"]);
-//@ harness name=tdes_ede3_algname prop=C19 tier=quick bits=0 desc="AlgorithmName of TdesEde3 names algorithm and variant"
+//@ harness name=tdes_ede3_algname prop=C19 tier=quick bits=0 est=20 desc="AlgorithmName of TdesEde3 names algorithm and variant"
 g_algname!(tdes_ede3_algname, TdesEde3, ["des", "ede3"]);
-//@ harness name=tdes_ede2_algname prop=C19 tier=quick bits=0 desc="AlgorithmName of TdesEde2 names algorithm and variant"
+//@ harness name=tdes_ede2_algname prop=C19 tier=quick bits=0 est=20 desc="AlgorithmName of TdesEde2 names algorithm and variant"
 g_algname!(tdes_ede2_algname, TdesEde2, ["des", "ede2"]);
-//@ harness name=tdes_eee3_algname prop=C19 tier=quick bits=0 desc="AlgorithmName of TdesEee3 names algorithm and variant"
+//@ harness name=tdes_eee3_algname prop=C19 tier=quick bits=0 est=20 desc="AlgorithmName of TdesEee3 names algorithm and variant"
 g_algname!(tdes_eee3_algname, TdesEee3, ["des", "eee3"]);
-//@ harness name=tdes_eee2_algname prop=C19 tier=quick bits=0 desc="AlgorithmName of TdesEee2 names algorithm and variant"
+//@ harness name=tdes_eee2_algname prop=C19 tier=quick bits=0 est=20 desc="AlgorithmName of TdesEee2 names algorithm and variant"
 g_algname!(tdes_eee2_algname, TdesEee2, ["des", "eee2"]);
 
 //@ harness name=des_zeroize prop=C16 tier=quick bits=1024 variants=des+zeroize desc="drop of an arbitrary-state Des leaves every byte of its storage zero"
